@@ -262,7 +262,6 @@ func (cc *cacheController) coRead(r ccReadReq) ccReadResp {
 						return cc.read.ExecuteWithCheckpoint(r, cc.coReadFromL1)
 					} else {
 						// Fetch from memory, sync to L3, sync to L1
-						l3Addr, l3Data := cc.mmu.fetchCacheLine(r.addrs[0], l3CacheLineSize)
 						return cc.read.ExecuteWithCheckpointAfter(r, latency.MemoryAccess, func(r ccReadReq) ccReadResp {
 							return cc.read.ExecuteWithCheckpoint(r, func(r ccReadReq) ccReadResp {
 								mu := cc.msi.getL3Lock(r.addrs)
@@ -272,6 +271,9 @@ func (cc *cacheController) coRead(r ccReadReq) ccReadResp {
 								cc.l3Lock = mu
 
 								return cc.read.ExecuteWithCheckpointAfter(r, latency.L3Access, func(r ccReadReq) ccReadResp {
+									// The line is read when it is installed: what an L1 write-back put
+									// into memory while the fetch was in flight is part of it
+									l3Addr, l3Data := cc.mmu.fetchCacheLine(r.addrs[0], l3CacheLineSize)
 									shouldEvict := cc.pushLineToL3(l3Addr, l3Data)
 									mu.Unlock()
 									cc.l3Lock = nil
@@ -368,7 +370,6 @@ func (cc *cacheController) coWrite(r ccWriteReq) ccWriteResp {
 				})
 			} else {
 				// Fetch from memory, sync to L3, sync to L1
-				l3Addr, l3Data := cc.mmu.fetchCacheLine(r.addrs[0], l3CacheLineSize)
 				return cc.write.ExecuteWithCheckpointAfter(r, latency.MemoryAccess, func(r ccWriteReq) ccWriteResp {
 					return cc.write.ExecuteWithCheckpointAfter(r, latency.L3Access, func(r ccWriteReq) ccWriteResp {
 						mu := cc.msi.getL3Lock(r.addrs)
@@ -377,6 +378,8 @@ func (cc *cacheController) coWrite(r ccWriteReq) ccWriteResp {
 						}
 
 						mu.Unlock()
+						// The line is read when it is installed (see the read path)
+						l3Addr, l3Data := cc.mmu.fetchCacheLine(r.addrs[0], l3CacheLineSize)
 						shouldEvict := cc.pushLineToL3(l3Addr, l3Data)
 						if shouldEvict != nil {
 							pending := cc.msi.evictL3ExtraCacheLine(cc.id, shouldEvict.Boundary[0])
